@@ -54,6 +54,7 @@ def _case(draw, unit):
     if direction == 'forward':
         case['skip'] = mask()
         case['scales'] = mask()
+        case['zero_input'] = draw(st.integers(0, 5)) == 0
     else:
         ab = mask(3)
         low_absent = draw(st.integers(0, 9)) == 0
@@ -70,6 +71,9 @@ def _case(draw, unit):
         else:
             sub = [p for p in present if draw(st.booleans())] or [present[0]]
         case['grad'] = sub
+        # some present levels hold exact zeros (zero-initialised coefficients, thresholded bands): the Jacobian does
+        # not depend on the values, so they must get the same gradient
+        case['zero_valued'] = [p_ for p_ in present if draw(st.integers(0, 3)) == 0]
     return case
 
 
@@ -138,6 +142,9 @@ def _forward(case, r, nondefault):
     r.label('full_jacobian' if full else 'jacobian_row_subset')
     K = C.shape[0]
     x0 = core.make(case['rx'], [1, 1, H, W])
+    if case.get('zero_input'):
+        x0 = np.zeros_like(x0)
+        r.label('zero_valued_input')
     X = torch.tensor(np.repeat(x0, K, axis=0), requires_grad=True)
     F = _flat(_outs(core.libcall(fwd, X), skip, scl, case['o_dim'], case['ri_dim']))
     if F.shape != (K, total):
@@ -220,6 +227,10 @@ def _inverse(case, r, nondefault):
     K = Cg.shape[0]
     p0 = {k: core.make({**case['rx'], 'seed': case['rx']['seed'] + i}, (1,) + shapes[k])
           for i, k in enumerate(present)}
+    for k in case.get('zero_valued', []):
+        if k in p0:
+            p0[k] = np.zeros_like(p0[k])
+    r.label('zero_valued_level' if any(k in p0 for k in case.get('zero_valued', [])) else None)
     arrs = {k: np.repeat(p0[k], K, axis=0) for k in present}
     low, highs, ts = build(arrs, sub)
     snap = list(highs)
